@@ -139,3 +139,5 @@ META = {
                   "above total degree 8; 1/r convergence.",
     "design_ref": "DESIGN.md §7 C12",
 }
+
+PROP_FILES_THOROUGH = ["props/C12deep.v"]
